@@ -85,6 +85,9 @@ THEOREMS = [
     "MysticVerif.C11.cost_clip_drops_good_region_witness",
     "MysticVerif.C11.cost_own_output_degenerate_witness",
     "MysticVerif.C11.cost_masked_parameter_dropped_witness",
+    "MysticVerif.C11.cost_documented_spelling_compares_by_content",
+    "MysticVerif.C11.cost_nothing_found_reports_nothing",
+    "MysticVerif.C11.cost_mask_other_container_reported_again_witness",
 ]
 
 ERR = {"ValueError": "value", "TypeError": "type", "IndexError": "index"}
@@ -2115,8 +2118,16 @@ def main(tier, seed):
             "cost = the real collapse_cost on generated monitors (grids of several spacings, reversed / tied / constant / random "
             "columns, runs of good and bad records with lengths around `samples` at either end and in the interior, special "
             "floats, every mask spelling) vs Model/CollapseCost.lean + run-based definition monitors + termination round trip "
-            "(non-trivial = reports at least one parameter); csolver = DE, DE2, Nelder-Mead, Powell with Or(CollapseCost, stop) on "
-            "bowls with high plateaus (non-trivial = at least one applied cost collapse); uneven = collapse_weight / "
+            "(non-trivial = reports at least one parameter); masks of stream cost are generated in every spelling the validation "
+            "accepts (bare (lo,hi) tuple, list of tuples = documented; [lo,hi], list of lists, tuple of tuples / lists), the "
+            "detector's own output is fed back in each of them, and whenever the harness's own intersection of the unmasked "
+            "result with the mask IS the mask (nothing meets the test / own output / mask inside the fresh bounds) the detector "
+            "and the CollapseCost condition (evaluated twice) must report nothing; the caller's mask object after the call is "
+            "compared with the model (in-place rewrite of bare intervals); csolver = DE, DE2, Nelder-Mead, Powell with "
+            "Or(CollapseCost(mask = None / the solver's bounds as tools.solver_bounds spells them / lists / partial / other "
+            "containers), stop), driven by Solve() or step-wise with Collapsed()/Collapse(), on "
+            "bowls with high plateaus; every applied cost collapse is justified against the unmasked detector on a copy of the "
+            "recorded history (non-trivial = at least one applied cost collapse); uneven = collapse_weight / "
             "collapse_position on product measures with factors of different sizes")
     tb = ["Lean 4.33 kernel; axioms per theorem listed under coverage.theorems",
           "hand-written model Model/Collapse.lean tied to collapse.py / mask.py by this differential run only",
